@@ -452,7 +452,7 @@ func (e *Exec) evalValue(fr *Frame, in ssa.Instruction, val ssa.Value) (Value, *
 	case *ssa.Index:
 		// array value or string (via Lookup for strings in older ssa); x.X array
 		xv := e.get(fr, x.X)
-		idx := e.get(fr, x.Index).(*Term)
+		idx := e.ext64(fr, x.Index)
 		switch a := xv.(type) {
 		case *ArrayV:
 			return e.indexElems(fr, in, a.E, idx)
@@ -461,7 +461,7 @@ func (e *Exec) evalValue(fr *Frame, in ssa.Instruction, val ssa.Value) (Value, *
 		}
 	case *ssa.IndexAddr:
 		xv := e.get(fr, x.X)
-		idx := tb.Resize(e.get(fr, x.Index).(*Term), 64, true)
+		idx := e.ext64(fr, x.Index)
 		var base *Ptr
 		var off, n int
 		switch a := xv.(type) {
@@ -499,7 +499,7 @@ func (e *Exec) evalValue(fr *Frame, in ssa.Instruction, val ssa.Value) (Value, *
 	case *ssa.Lookup:
 		xv := e.get(fr, x.X)
 		if s, ok := xv.(*StrV); ok {
-			return e.indexStr(fr, in, s, e.get(fr, x.Index).(*Term))
+			return e.indexStr(fr, in, s, e.ext64(fr, x.Index))
 		}
 		m := xv.(*MapV)
 		vt := x.X.Type().Underlying().(*types.Map).Elem()
@@ -666,6 +666,16 @@ func (e *Exec) store(p *Ptr, v Value) {
 	}
 }
 
+// ext64 widens an index / bound operand to 64 bits according to the signedness of its type (a
+// byte used as an index is zero-extended).
+func (e *Exec) ext64(fr *Frame, v ssa.Value) *Term {
+	_, sg, ok := typeWidth(v.Type())
+	if !ok {
+		sg = true
+	}
+	return e.tb.Resize(e.get(fr, v).(*Term), 64, sg)
+}
+
 func (e *Exec) indexElems(fr *Frame, in ssa.Instruction, el []Value, idx *Term) (Value, *GoPanic) {
 	idx = e.tb.Resize(idx, 64, true)
 	n := len(el)
@@ -750,15 +760,15 @@ func (e *Exec) sliceOp(fr *Frame, x *ssa.Slice) (Value, *GoPanic) {
 	}
 	lo := tb.Const(64, 0)
 	if x.Low != nil {
-		lo = tb.Resize(e.get(fr, x.Low).(*Term), 64, true)
+		lo = e.ext64(fr, x.Low)
 	}
 	hi := tb.Const(64, uint64(length))
 	if x.High != nil {
-		hi = tb.Resize(e.get(fr, x.High).(*Term), 64, true)
+		hi = e.ext64(fr, x.High)
 	}
 	mx := tb.Const(64, uint64(capacity))
 	if x.Max != nil {
-		mx = tb.Resize(e.get(fr, x.Max).(*Term), 64, true)
+		mx = e.ext64(fr, x.Max)
 	}
 	ok := tb.AndN(tb.Sle(tb.Const(64, 0), lo), tb.Sle(lo, hi), tb.Sle(hi, mx), tb.Sle(mx, tb.Const(64, uint64(capacity))))
 	if !e.branch(ok) {
